@@ -396,6 +396,8 @@ func checkC08(ctx *Ctx) *Result {
 		intRule(ctx, r, "R8.4")
 		// the predicates the origin table takes as given: "deemed insecure" and "public suffix"
 		patternPredicates(ctx, r, "R8.4")
+		// ... and the deny tables behind "forbidden/prohibited name"
+		denyTables(ctx, r, "R8.4")
 		// ... and "malformed pattern": the guards every accepted pattern has passed
 		r.share(checkC13(ctx), map[string]string{"R13.4": "every accepting path of ParsePattern has passed each documented guard (an invalid pattern makes Reconfigure fail)"}, nil)
 	}
@@ -517,6 +519,7 @@ func checkC09(ctx *Ctx) *Result {
 	r.rule("R9.1", "invariant debug ⇒ pointer ≠ nil is preserved by every path of every writer", 3)
 	r.rule("R9.2", "documented transitions of creation, SetDebug, Reconfigure(nil / non-nil / invalid)", 3)
 	r.rule("R9.3", "debug mode is consulted only for preflights and only colours failing ones (status, partial CORS headers, full allowed-header list)", 50)
+	r.rule("R9.4", "partial headers: every CORS header of a debug-mode answer is granted by a step that passed on that path (its step atoms are valued as on some successful debug-off preflight writing the same header from the same source)", 50)
 	r.rule("R8.3", "builder: (nil, nil) for a nil Config; non-nil configuration with a nil error; nil configuration with an error", 1)
 	builderRule(ctx, r, "R8.3")
 	val := ctx.Validation()
@@ -717,8 +720,14 @@ func checkC09(ctx *Ctx) *Result {
 	}, func(o Obligation) bool {
 		return strings.Contains(o.Construct, " mw.debug") && !strings.Contains(o.Construct, "!mw.debug")
 	})
-	// the state machine advances: no method returns holding the lock
-	r.share(checkC07(ctx), map[string]string{"R7.2": "every lock acquired by Reconfigure, SetDebug, Config and the request closure is released on every path"}, nil)
+	// the state machine advances: no method returns holding the lock, and the
+	// lock is not held while code that may call back into the middleware runs
+	r.share(checkC07(ctx), map[string]string{
+		"R7.2": "every lock acquired by Reconfigure, SetDebug, Config and the request closure is released on every path",
+		"R7.4": "no interface/dynamic call and no call into module code while the lock is held (a wrapped handler that calls SetDebug or Reconfigure would deadlock)",
+	}, nil)
+	// where `*` is listed debug mode must not consult the masked discrete state either
+	r.share(checkC06(ctx), map[string]string{"R6.7": "where `*` is listed the request path — in either debug mode — does not consult the masked discrete state (allowedMethods under allowAnyMethod; allowedReqHdrs/acah under asteriskReqHdrs)"}, nil)
 	return r
 }
 
@@ -755,6 +764,58 @@ func checkDebugColours(ctx *Ctx, r *Result) {
 				succ[w.Key][w.Tag] = true
 			}
 		}
+	}
+	// R9.4: "partial headers" — a header a debug-mode answer carries is one
+	// whose step passed: the path values the atoms of that step like some
+	// successful debug-off preflight that writes the same header from the
+	// same source
+	stepAtoms := map[string][]string{
+		hACAM:  {aSafe, aListed, aAnyMethod, aCred},
+		hACAPN: {aPNA, aPNTrue, aFoundPN},
+		hACAH:  {aAsterisk, aCred, aAllowAuth, aCheck, aNoHdrs, aACRH},
+		hACAO:  {aParseOK, aContains, aEmpty, aCred},
+		hACAC:  {aParseOK, aContains, aEmpty, aCred},
+	}
+	for _, b := range on {
+		if b.A[aDebug] != 1 {
+			continue
+		}
+		bad := ""
+		for _, w := range b.Writes {
+			atoms, has := stepAtoms[w.Key]
+			if !has || (w.Key == hACAH && w.Tag == "cfg.acah") {
+				continue
+			}
+			justified := false
+			for _, s := range off {
+				if s.StatusTag != successStatusTag {
+					continue
+				}
+				same := false
+				for _, ws := range s.WritesTo(w.Key) {
+					if ws.Tag == w.Tag {
+						same = true
+					}
+				}
+				if !same {
+					continue
+				}
+				match := true
+				for _, x := range atoms {
+					if s.A[x] != 0 && b.A[x] != 0 && s.A[x] != b.A[x] {
+						match = false
+					}
+				}
+				if match {
+					justified = true
+					break
+				}
+			}
+			if !justified {
+				bad = fmt.Sprintf("the debug-mode answer carries %s := %s although the step that grants it did not pass: no successful preflight writes it under this path's conditions", w.Key, w.Tag)
+			}
+		}
+		r.check(bad == "", "R9.4", b.Describe(), "", bad, len(b.Writes))
 	}
 	allowedKeys := map[string]bool{hACAO: true, hACAC: true, hACAPN: true, hACAM: true, hACAH: true, hACMA: true}
 	consistent := func(a, b *ReqPath) bool {
